@@ -25,8 +25,10 @@ COQ = os.path.join(ROOT, "coq")
 OCAML = os.path.join(ROOT, "ocaml")
 HARNESS = os.path.join(ROOT, "harness")
 BIN = os.path.join(ROOT, "bin")
-WORK = os.path.join(ROOT, "work")
 REPO = os.environ.get("VERIF_REPO", "/repo")
+# scratch files; a run against another tree (bin/mutant-run) gets its own directory
+WORK = os.path.join(ROOT, "work") if REPO == "/repo" else \
+    os.path.join(ROOT, "work", "alt-" + hashlib.sha1(REPO.encode()).hexdigest()[:8])
 
 GOENV = dict(os.environ, GOFLAGS="-mod=mod", GOPROXY="off", GOSUMDB="off", GOTOOLCHAIN="local",
              CGO_LDFLAGS_ALLOW=".*")
@@ -78,7 +80,7 @@ def go_build(cmd_name, tags="verif", extra_ldflags=""):
 def coq_make(targets, timeout=1500):
     """Full .vo build of the given targets. Returns (ok, output)."""
     os.makedirs(WORK, exist_ok=True)
-    lock = os.path.join(WORK, "coq.lock")     # several checks may run at once; one make at a time
+    lock = os.path.join(ROOT, "work", "coq.lock")     # several checks may run at once; one make at a time
     p = sh("flock %s sh -c './mkproject.sh && make -j16 %s'" % (lock, " ".join(targets)),
            cwd=COQ, timeout=timeout, check=False)
     return p.returncode == 0, p.stdout
@@ -162,7 +164,7 @@ def ocaml_build(area, extract_v):
     d = os.path.join(OCAML, area)
     src = os.path.join(COQ, extract_v)
     os.makedirs(WORK, exist_ok=True)
-    lock = os.path.join(WORK, "ocaml.lock")
+    lock = os.path.join(ROOT, "work", "ocaml.lock")
     sh(["flock", lock, "coqc", "-Q", COQ, "SSV", src], cwd=d, timeout=900)
     sh(["flock", lock, "dune", "build", "./%s/run.exe" % area], cwd=OCAML, timeout=900)
     return os.path.join(OCAML, "_build", "default", area, "run.exe")
@@ -269,13 +271,14 @@ def minimise(driver, model, case, still_fails, budget_s=40):
     driver's replay mode.  still_fails(result) -> bool."""
     ops = [l for l in case.lines if not (l.startswith("OBS ") or l.startswith("MON ") or l.startswith("#"))]
     t0 = time.time()
-    tmp = os.path.join(WORK, "min.ops")
+    tmp = os.path.join(WORK, "min-%d.ops" % os.getpid())
+    mintag = "min-%d" % os.getpid()
 
     def test(cand):
         with open(tmp, "w") as fh:
             fh.write(case.header + "\n" + "\n".join(cand) + "\nEND\n")
         try:
-            r = run_pair(driver, model, ["replay", tmp], "min", timeout=120)
+            r = run_pair(driver, model, ["replay", tmp], mintag, timeout=120)
         except Exception:
             return None
         return r if still_fails(r) else None
